@@ -1,4 +1,5 @@
 import KrakenModel.Proof.C06Sys
+import KrakenModel.Proof.C06Restart
 /-
   C06  The disk blob store restores its state after a crash at any point.
 
@@ -271,8 +272,8 @@ theorem nothing_resurrected (K : Key) (hv : ValidKey cfg K) (hb : aget m.blobs K
 end Crash
 
 /-- **C06 (6)** A crash inside `disk.NewStore` loses nothing it would have recovered: at every call of
-the constructor the directory of every blob it recovers is untouched (so the next start recovers the
-same blob from the same files). -/
+the constructor the directory of every blob it recovers is untouched (a frame property; the end-to-end
+statement — the next start lists the same blobs — is (6b)). -/
 theorem crash_inside_constructor (cfg : Cfg) (hist : List Act) (hw : (sys cfg).WFHist (ActPre cfg) (sys cfg).init hist)
     (ord : Order Name) (mt : List Key) (rm : List (Call Name))
     (hrm : cfg.reboot = false → validRm ((sys cfg).run hist).fs rm = true)
@@ -282,6 +283,33 @@ theorem crash_inside_constructor (cfg : Cfg) (hist : List Act) (hw : (sys cfg).W
     (applyPrefix k (rebootRun cfg ord mt rm ((sys cfg).run hist).fs).calls ((sys cfg).run hist).fs).dir? (dirPath cfg c K) =
       ((sys cfg).run hist).fs.dir? (dirPath cfg c K) :=
   (reboot_ok (good_run cfg hist hw).fs ord mt rm hrm).frame hfit k K c rb hrb hc
+
+/-- **C06 (6b)** A crash inside `disk.NewStore`, end to end: whatever call of the constructor the process
+dies at, the next start (any removal order, any modification times) succeeds and lists, for every key,
+exactly the blob the interrupted start would have listed — complete or incomplete, with the same size
+and eviction ban.  (Both starts under the capacity hypothesis of (2)–(6): what is on disk fits.) -/
+theorem crash_inside_constructor_restarts (cfg : Cfg) (hist : List Act) (hw : (sys cfg).WFHist (ActPre cfg) (sys cfg).init hist)
+    (ord : Order Name) (mt : List Key) (rm : List (Call Name))
+    (hrm : cfg.reboot = false → validRm ((sys cfg).run hist).fs rm = true)
+    (hfit : rebootSize cfg rm ((sys cfg).run hist).fs ≤ cfg.capacity) (k : Nat)
+    (ord' : Order Name) (mt' : List Key) (rm' : List (Call Name))
+    (hrm' : cfg.reboot = false →
+      validRm (applyPrefix k (rebootRun cfg ord mt rm ((sys cfg).run hist).fs).calls ((sys cfg).run hist).fs) rm' = true)
+    (hfit' : rebootSize cfg rm' (applyPrefix k (rebootRun cfg ord mt rm ((sys cfg).run hist).fs).calls ((sys cfg).run hist).fs)
+      ≤ cfg.capacity) :
+    ∃ m' m'', (rebootRun cfg ord mt rm ((sys cfg).run hist).fs).res = Except.ok m' ∧
+      (rebootRun cfg ord' mt' rm'
+        (applyPrefix k (rebootRun cfg ord mt rm ((sys cfg).run hist).fs).calls ((sys cfg).run hist).fs)).res = Except.ok m'' ∧
+      ∀ K, ValidKey cfg K → aget m''.blobs K = aget m'.blobs K := by
+  have G := (good_run cfg hist hw).fs
+  have ok := reboot_ok G ord mt rm hrm
+  have G' := goodFS_applyPrefix_removal k _ G ok.removal
+  have ok' := reboot_ok G' ord' mt' rm' hrm'
+  obtain ⟨m', h1, l1, _⟩ := ok.fits hfit
+  obtain ⟨m'', h2, l2, _⟩ := ok'.fits hfit'
+  refine ⟨m', m'', h1, h2, fun K hv => ?_⟩
+  rw [l2 K hv, l1 K hv]
+  exact rebootLookup_prefix G ord mt rm hrm hfit k K
 
 /-- **C06 (7)** Afterwards every key can be created and completed again: in every state reached by
 any history (in particular right after a crash and a restart) no operation fails on what is on disk —
